@@ -107,7 +107,8 @@ def run_case(rng, res, idx, tier):
                 asg = recs[r]['assignment'][n]
                 res.count('restore_checks')
                 if asg['factor_worker'] == r:
-                    if st['A'] is None or not (torch.equal(st['A'], held[n][0]) and torch.equal(st['G'], held[n][1])):
+                    if st['A'] is None or st['A'].dtype != held[n][0].dtype or st['G'].dtype != held[n][1].dtype or \
+                            not (torch.equal(st['A'], held[n][0]) and torch.equal(st['G'], held[n][1])):
                         return res.violation(f'rank {r} gathers the factors of layer {n} but did not get the saved factors back after load', case)
                 if asg['inv'] == r and compute and not st['has_second_order']:
                     return res.violation(f'rank {r} is the inverse worker of layer {n}; compute_inverses=True but no second-order data after load', case)
